@@ -47,10 +47,12 @@ def aim_keep_at_line_tag(rng, case):
 def run(ctx):
     stats = {}
     L.evaluate(ctx, PID, L.load_corpus(PID), stats)
-    target = ctx.n(700, 20000)
+    target = ctx.n(4000, 60000)
     done = 0
-    while done < target and not ctx.out_of_time():
-        batch = [L.gen_case(ctx.rng, nreq=ctx.rng.randint(2, 5)) for _ in range(48)]
+    import time
+    soft = L.soft_deadline(ctx)
+    while done < target and not ctx.out_of_time() and time.time() < soft:
+        batch = [L.gen_case(ctx.rng, nreq=ctx.rng.randint(2, 5)) for _ in range(96)]
         batch = [aim_keep_at_line_tag(ctx.rng, c) if ctx.rng.random() < 0.15 else c for c in batch]
         L.evaluate(ctx, PID, batch, stats)
         done += sum(len(c["history"]) for c in batch)
